@@ -39,8 +39,8 @@ def shards(tier, seed):
         for gi, kinds in enumerate(GROUPS):
             for b in ("J", "B"):
                 out.append({"name": f"{'+'.join(kinds)}-{b}", "build": b,
-                            "params": {"kinds": kinds, "subtypes": subs, "cases": 16 if b == "J" else 6,
-                                       "G": 4, "boxlimit": 500}})
+                            "params": {"kinds": kinds, "subtypes": subs, "cases": 40 if b == "J" else 15,
+                                       "G": 4, "boxlimit": 700}})
     else:
         for gi, kinds in enumerate(GROUPS):
             for si, st in enumerate(subs):
@@ -67,7 +67,24 @@ def gen_case(rng, kind, subtype, G, boxlimit, n_el=10):
         else:
             els.append(gg.rand_element(rng, kind, G))
             cells.append(None)
-    extent = max([G] + [max(gg.coords_of(kind, e)) for e in els if gg.coords_of(kind, e)])
+    if kind in ("polygon", "multipolygon") and rng.random() < 0.35:
+        # a big hole whose ring starts at a random corner, in a big shell: boxes strictly inside the
+        # hole, between rings, across the line from the shell's last to the hole's first vertex
+        a, b = int(rng.integers(1, 4)), int(rng.integers(5, 9))
+        shell = gg.rotate([(0, 0), (10, 0), (10, 10), (0, 10), (0, 0)], int(rng.integers(4)))
+        hole = gg.rotate([(a, a), (a, b), (b, b), (b, a), (a, a)], int(rng.integers(4)))
+        if rng.random() < 0.5:
+            shell, hole = shell[::-1], hole[::-1]
+        rings = [gg.flat(shell), gg.flat(hole)]
+        k_ = int(rng.integers(len(els)))
+        els[k_] = rings if kind == "polygon" else [rings]
+        cells[k_] = None
+    # pre-scale: the box half-grid becomes finer than the grid the shapes live on, so that boxes
+    # fit strictly inside unit holes and notches
+    m_ = int(rng.choice([1, 1, 2, 3])) if kind not in ("point", "multipoint") else 1
+    if m_ > 1:
+        els = [gg.transform(e, kind, m_, 0, 0) for e in els]
+    extent = max([G * m_] + [max(gg.coords_of(kind, e)) for e in els if gg.coords_of(kind, e)])
     lo = min([0] + [min(gg.coords_of(kind, e)) for e in els if gg.coords_of(kind, e)])
     s, tx, ty = A.fit_transform(rng, kind, els, subtype, extent - lo)
     tx -= lo * s
@@ -105,7 +122,7 @@ def gen_case(rng, kind, subtype, G, boxlimit, n_el=10):
     Bs[:, [0, 2]] = B[:, [0, 2]] * s + 2 * tx
     Bs[:, [1, 3]] = B[:, [1, 3]] * s + 2 * ty
     return {"kind": kind, "subtype": subtype, "elements": elements, "cells": ecells,
-            "stretch": [s, tx, ty], "boxes2": Bs.tolist()}
+            "stretch": [s * m_, tx, ty], "boxes2": Bs.tolist()}
 
 
 def relation_classes(kind, el2, B, exp):
